@@ -141,4 +141,9 @@ def gen_history(seed, kind='file', n=None, weights=None, noids=None):
             ops.append({'op': 'wrong', 'o': r.randrange(noids)})
         elif k == 'sweep':
             ops.append({'op': 'sweep'})
+        elif k == 'pack':
+            ops.append({'op': 'pack',
+                        'where': r.choice(('at', 'between', 'after_all',
+                                           'before_all', 'just_after')),
+                        'at': r.randrange(16)})
     return ops
